@@ -276,9 +276,9 @@ theorem DispInv.takeS {s : Sig} {c c' : Cfg} {q : Nat} {extra : List Instr} {new
   have hx : ∀ f : Instr → Bool, (∀ i, relI s i = false → f i = false) → extra.countP f = 0 := by
     intro f hf; rw [List.countP_eq_zero]; intro i hi; simp [hf i (hextra i hi)]
   have h1 : c'.code.countP (isPSs s) = 1 + c.code.tail.countP (isPSs s) := by
-    rw [hcode]; simp [List.countP_cons, List.countP_append, isPSs, hx _ (fun i hi => (relI_parts hi).1)]; omega
+    rw [hcode]; simp [List.countP_append, isPSs, hx _ (fun i hi => (relI_parts hi).1)]; omega
   have h2 : c'.code.countP (isDisp s) = c.code.tail.countP (isDisp s) := by
-    rw [hcode]; simp [List.countP_cons, List.countP_append, isDisp, hx _ (fun i hi => (relI_parts hi).2.1)]
+    rw [hcode]; simp [List.countP_append, isDisp, hx _ (fun i hi => (relI_parts hi).2.1)]
   have hcount := hI.count
   have := htail (isPSs s)
   have := htail (isDisp s)
@@ -315,7 +315,7 @@ theorem DispInv.head_ps {s : Sig} {c : Cfg} {rest : List Instr} (hI : DispInv s 
     rest.countP (isPSs s) = 0 ∧ rest.countP (isDisp s) = 0 ∧ c.tr.countP (isDoneT s) = 0 ∧ callsOf s c.tr = [] := by
   have hcount := hI.count
   rw [hc] at hcount
-  simp [List.countP_cons, isPSs, isDisp] at hcount
+  simp [isPSs, isDisp] at hcount
   exact ⟨by omega, by omega, by omega, hI.ps hle (by simp [hc])⟩
 
 theorem DispInv.head_disp {s : Sig} {c : Cfg} {rest : List Instr} {i : Nat} (hI : DispInv s c) (hc : c.code = .dispatch s i :: rest)
@@ -324,7 +324,7 @@ theorem DispInv.head_disp {s : Sig} {c : Cfg} {rest : List Instr} {i : Nat} (hI 
       i ≤ (handlersOf c.L s.cls).length ∧ callsOf s c.tr = (handlersOf c.L s.cls).take i := by
   have hcount := hI.count
   rw [hc] at hcount
-  simp [List.countP_cons, isPSs, isDisp] at hcount
+  simp [isPSs, isDisp] at hcount
   obtain ⟨h1, h2⟩ := hI.disp hle i (by simp [hc])
   simp [hc, pend] at h2
   exact ⟨by omega, by omega, by omega, h1, h2⟩
@@ -335,9 +335,9 @@ theorem DispInv.psDisp {s : Sig} {c c' : Cfg} {rest : List Instr} (hI : DispInv 
   have hH : handlersOf c'.L s.cls = handlersOf c.L s.cls := by unfold handlersOf; rw [hh]
   have hcount := hI.count
   rw [hc] at hcount
-  simp [List.countP_cons, isPSs, isDisp] at hcount
+  simp [isPSs, isDisp] at hcount
   refine ⟨?_, ?_, ?_, ?_, ?_⟩
-  · rw [hcode, htr]; simp [List.countP_cons, isPSs, isDisp]; omega
+  · rw [hcode, htr]; simp [isPSs, isDisp]; omega
   · rw [htr]; exact hI.none
   · rw [htr, hH]
     intro hle j hj
@@ -362,7 +362,7 @@ theorem DispInv.psEnd {s : Sig} {c c' : Cfg} {rest pushed : List Instr} {new : L
   have hH : handlersOf c'.L s.cls = handlersOf c.L s.cls := by unfold handlersOf; rw [hh]
   have hcount := hI.count
   rw [hc] at hcount
-  simp [List.countP_cons, isPSs, isDisp] at hcount
+  simp [isPSs, isDisp] at hcount
   have hx : ∀ f : Instr → Bool, (∀ i, relI s i = false → f i = false) → pushed.countP f = 0 := by
     intro f hf; rw [List.countP_eq_zero]; intro i hi; simp [hf i (hp i hi)]
   have hT : takeCount s c'.tr = takeCount s c.tr := by
@@ -370,7 +370,7 @@ theorem DispInv.psEnd {s : Sig} {c c' : Cfg} {rest pushed : List Instr} {new : L
   have hCalls : callsOf s c'.tr = callsOf s c.tr := by
     rcases hnew with rfl | ⟨rfl, -⟩ <;> simp [htr, callsOf]
   have hD : c'.tr.countP (isDoneT s) ≤ c.tr.countP (isDoneT s) + 1 := by
-    rcases hnew with rfl | ⟨rfl, -⟩ <;> simp [htr, isDoneT, List.countP_cons]
+    rcases hnew with rfl | ⟨rfl, -⟩ <;> simp [htr, isDoneT]
   have hmem : ∀ i, relI s i = true → i ∈ c'.code → i ∈ rest := by
     intro i hi hm
     rw [hcode] at hm
@@ -407,9 +407,9 @@ theorem DispInv.dispNext {s : Sig} {c c' : Cfg} {rest : List Instr} {i : Nat} {h
   have hH : handlersOf c'.L s.cls = handlersOf c.L s.cls := by unfold handlersOf; rw [hh]
   have hcount := hI.count
   rw [hc] at hcount
-  simp [List.countP_cons, isPSs, isDisp] at hcount
+  simp [isPSs, isDisp] at hcount
   refine ⟨?_, ?_, ?_, ?_, ?_⟩
-  · rw [hcode, htr]; simp [List.countP_cons, isPSs, isDisp]; omega
+  · rw [hcode, htr]; simp [isPSs, isDisp]; omega
   · rw [htr]; exact hI.none
   · rw [htr, hH]
     intro hle j hj
@@ -445,11 +445,11 @@ theorem DispInv.dispDone {s : Sig} {c c' : Cfg} {rest : List Instr} {i : Nat} (h
   have hH : handlersOf c'.L s.cls = handlersOf c.L s.cls := by unfold handlersOf; rw [hh]
   have hcount := hI.count
   rw [hc] at hcount
-  simp [List.countP_cons, isPSs, isDisp] at hcount
+  simp [isPSs, isDisp] at hcount
   have hT : takeCount s c'.tr = takeCount s c.tr := by simp [htr, takeCount]
   have hCalls : callsOf s c'.tr = callsOf s c.tr := by simp [htr, callsOf]
   refine ⟨?_, ?_, ?_, ?_, ?_⟩
-  · rw [hcode, hT, htr]; simp [List.countP_cons, isDoneT]; omega
+  · rw [hcode, hT, htr]; simp [isDoneT]; omega
   · rw [hT, hCalls]; exact hI.none
   · rw [hT, hH, hCalls, hcode]
     intro hle j hj
@@ -479,7 +479,7 @@ theorem DispInv.call {s : Sig} {c c' : Cfg} {rest body : List Instr} {new : List
   have hT : takeCount s c'.tr = takeCount s c.tr := by rw [htr, takeCount_soft_append hnew]; simp [takeCount]
   have hCalls : callsOf s c'.tr = callsOf s c.tr ++ [(h, d)] := by rw [htr, callsOf_soft_append hnew]; simp [callsOf]
   have hD : c'.tr.countP (isDoneT s) = c.tr.countP (isDoneT s) := by
-    rw [htr, doneCount_soft_append hnew]; simp [List.countP_cons, isDoneT]
+    rw [htr, doneCount_soft_append hnew]; simp [isDoneT]
   have hx : ∀ f : Instr → Bool, (∀ i, relI s i = false → f i = false) → body.countP f = 0 := by
     intro f hf; rw [List.countP_eq_zero]; intro i hi; simp [hf i (hbody i hi)]
   have hpend' : pend s c'.code = [] :=
